@@ -78,6 +78,7 @@ pub struct W {
     pub vm: Vm,
     pub cast: Cast,
     pub base: (mcvm::Snapshot, Hm),
+    pub base2: (mcvm::Snapshot, Hm),
     pub e_exp: i64,
 }
 
@@ -171,11 +172,23 @@ impl Scenario for Handover {
         };
         Self::compare(&vm, &cast, &h).expect("SETUP-FAILED handover base");
         let snap = vm.snapshot();
-        W { vm, cast, base: (snap, h), e_exp }
+        // second base: a non-owner beneficiary with an active term is already installed
+        let p = ChangeBeneficiaryParams { new_beneficiary: id(b), new_quota: atto(Q), new_expiration: e_exp };
+        let z0 = TokenAmount::zero();
+        let r1 = ext(&vm, mc.o, &id(mc.m), &z0, MM::ChangeBeneficiary as u64, Some(&p));
+        let r2 = ext(&vm, b, &id(mc.m), &z0, MM::ChangeBeneficiary as u64, Some(&p));
+        assert!(r1.ok() && r2.ok(), "SETUP-FAILED beneficiary installation");
+        let h2 = Hm { beneficiary: b, quota: Q, used: 0, exp: e_exp, ..h.clone() };
+        Self::compare(&vm, &cast, &h2).expect("SETUP-FAILED beneficiary-installed base");
+        let snap2 = vm.snapshot();
+        W { vm, cast, base: (snap, h), base2: (snap2, h2), e_exp }
     }
 
     fn bases(&self, w: &W) -> Vec<(String, VS<Hm>)> {
-        vec![("miner-with-sector".into(), VS { snap: w.base.0.clone(), m: w.base.1.clone() })]
+        vec![
+            ("miner-with-sector".into(), VS { snap: w.base.0.clone(), m: w.base.1.clone() }),
+            ("beneficiary-installed".into(), VS { snap: w.base2.0.clone(), m: w.base2.1.clone() }),
+        ]
     }
 
     fn key(&self, s: &VS<Hm>) -> Key {
